@@ -777,7 +777,11 @@ func underKey(v zed.Value) string {
 
 // elemKeys returns the identities of the elements of an array or set value,
 // with union tags removed.
-func elemKeys(v zed.Value) ([]string, bool) {
+func elemKeys(v zed.Value) ([]string, bool) { return elemKeysBy(v, underKey) }
+
+// elemKeysBy is elemKeys with the identity function given (underKey ignores a
+// type name on the element, valKey keeps it).
+func elemKeysBy(v zed.Value, key func(zed.Value) string) ([]string, bool) {
 	if v.IsNull() {
 		return nil, true
 	}
@@ -796,7 +800,7 @@ func elemKeys(v zed.Value) ([]string, bool) {
 			}
 			typ, b = u.Untag(b)
 		}
-		out = append(out, underKey(zed.NewValue(typ, b)))
+		out = append(out, key(zed.NewValue(typ, b)))
 	}
 	return out, true
 }
@@ -965,7 +969,17 @@ func (m *gbModel) checkAgg(run runInfo, a int, idx []int, r *outRow, o *vt.Outco
 			return fail("a container of " + showVals(nn))
 		}
 		if spec.Func == "union" {
-			if _, isSet := zed.TypeUnder(got.Type()).(*zed.TypeSet); !isSet || !sameStrings(want, elems, true, false) || len(uniq(elems)) != len(elems) {
+			// The elements must be the consumed values as a set.  Whether union() keeps the name of a named
+			// primitive is not part of the claim, so membership is compared with names removed; "no element
+			// twice" and "no more elements than distinct consumed values" are decided on the full identity
+			// (80(port=uint16) and 80(uint16) are two values).
+			raw, _ := elemKeysBy(got, valKey)
+			var rawWant []string
+			for _, v := range nn {
+				rawWant = append(rawWant, valKey(v))
+			}
+			if _, isSet := zed.TypeUnder(got.Type()).(*zed.TypeSet); !isSet || !sameStrings(want, elems, true, false) ||
+				len(uniq(raw)) != len(raw) || len(raw) > len(uniq(rawWant)) {
 				return fail("the set of " + showVals(nn))
 			}
 		} else {
@@ -979,11 +993,16 @@ func (m *gbModel) checkAgg(run runInfo, a int, idx []int, r *outRow, o *vt.Outco
 		}
 	case "dcount":
 		if len(nonNull(vals)) == len(vals) {
-			var ks []string
+			var ks, uks []string
 			for _, v := range vals {
 				ks = append(ks, valKey(v))
+				uks = append(uks, underKey(v))
 			}
 			want := uint64(len(uniq(ks)))
+			if len(uniq(uks)) != len(uniq(ks)) {
+				// a named and an unnamed value with the same bytes: whether they count once or twice is not documented
+				return nil, false
+			}
 			if got.Type() != zed.TypeUint64 || got.IsNull() || got.Uint() != want {
 				return fail(fmt.Sprintf("%d(uint64)", want))
 			}
